@@ -268,12 +268,16 @@ check('C08',
       'contains it; the formal derivative used by f0 is the first Taylor coefficient of the exactly recentred polynomial (and obeys the '
       'product rule); phasepol\'s reference phase plus recentred polynomial reproduces the prediction and starts in [0,1); the validity '
       'intervals cover every span, are more than eps apart and end at span end points; times outside every interval are refused. '
-      'PARTIAL: time_at (Newton iteration) and the float64 evaluation error are decided by the correspondence run (model evaluated by '
+      'time_at: for every root finder that returns roots of the residual it is given (scipy.optimize.root_scalar is a parameter of Model/PolycoTimeAt.v, '
+      'a hypothesis of the theorem, not an axiom) the returned time has the requested prediction (C08_time_at_inverts), phases not strictly enclosed '
+      'by the end predictions of a validity interval are refused (C08_time_at_refuses / _value_error), the first guess is the TMID of the first entry '
+      'ending at or above the phase (C08_time_at_first_guess); C08_time_at_example: satisfiable, concrete instance. '
+      'PARTIAL: convergence of the Newton iteration and the float64 evaluation error are decided by the correspondence run (model evaluated by '
       'vm_compute on the exact decimal numbers of generated polyco texts and the exact two-double times) and the monitor (tempo formula '
       'with fractions.Fraction: |phase - formula| <= 1e-8 cycles).',
       'Span edges, one pass of the interval-merge loop, the membership test and dt of _get_index_and_dt, how __call__/f0/phasepol use the '
       'selected entry and the coefficient updates / padding / line count of from_polyco are REGENERATED from pulsar/predictor.py by translator '
-      'T14 on every run (other statements pinned); C08_generated_* prove the model equal to them. '
+      'T14 on every run (other statements pinned), as are the range check, ph_end, the searched value, the residual and the result of time_at; C08_generated_* prove the model equal to them; the guess handed to the root finder is read out of the closure and compared with the model. '
       'Trusted: Coq kernel; astropy Time differences as exact rationals (TAI); float64 Horner error below 1e-8 inside the sampled envelope '
       'F0*span/2 <= 1e6 cycles; searchsorted on float MJD (times within 20 us of a span end excluded from the selection comparison); a quarter of the sampled instants are given in TT / TAI (repair D27).',
       'machine-checked proof in Coq (Q) + correspondence run (vm_compute) + exact-rational monitor',
